@@ -357,16 +357,41 @@ def extEvents (q : String → String) : Option (List Ev) → List Ev
     name `n` of the list itself -/
 def ExtOk (n : String) (body : List Ev) : Prop := ∀ e ∈ body, (∀ a, e ≠ Ev.start n a) ∧ e ≠ Ev.end_ n
 
-/-- the events of `xl/workbook.xml`: `<workbook> [<workbookPr …/>] <sheets>…</sheets> <definedNames>…</definedNames> [<extLst>…</extLst>] </workbook>` -/
+/-- the local names `read_workbook` interprets on a start tag -/
+def xlsxInterpreted : List String := ["extLst", "sheet", "workbookPr", "definedName"]
+
+/-- events the workbook loop must skip: start tags of any element whose local name is not interpreted (whatever its
+    namespace prefix and attributes: `fileVersion`, `bookViews`, `workbookView`, `calcPr`, `mc:AlternateContent`,
+    `externalReferences`, `pivotCaches`, …), end tags other than the workbook's, text, comments, processing instructions -/
+def InertX (evs : List Ev) : Prop :=
+  ∀ e ∈ evs, match e with
+    | .start n _ => localName n ∉ xlsxInterpreted
+    | .end_ n => localName n ≠ "workbook"
+    | _ => True
+
+/-- inert content at the five positions between the children of `<workbook>` that the skeleton below distinguishes -/
+structure Gaps where
+  g0 : List Ev := []
+  g1 : List Ev := []
+  g2 : List Ev := []
+  g3 : List Ev := []
+  g4 : List Ev := []
+
+def Gaps.ok (g : Gaps) : Prop := InertX g.g0 ∧ InertX g.g1 ∧ InertX g.g2 ∧ InertX g.g3 ∧ InertX g.g4
+
+/-- the events of `xl/workbook.xml`:
+    `<workbook> g0 [<workbookPr …/>] g1 <sheets>…</sheets> g2 <definedNames>…</definedNames> g3 [<extLst>…</extLst>] g4 </workbook>` -/
 def workbookEvents (q : String → String) (ridKey : String) (pr : Option (List (String × String)))
-    (sheets : List XSheet) (names : List (String × List (Bool × String))) (ext : Option (List Ev) := none) : List Ev :=
+    (sheets : List XSheet) (names : List (String × List (Bool × String))) (ext : Option (List Ev) := none)
+    (g : Gaps := {}) : List Ev :=
   .start (q "workbook") [] ::
-    (prEvents q pr ++
+    (g.g0 ++ (prEvents q pr ++ (g.g1 ++
      (.start (q "sheets") [] ::
        (sheets.flatMap (sheetEvents q ridKey) ++
-         (.end_ (q "sheets") ::
+         (.end_ (q "sheets") :: (g.g2 ++
            (.start (q "definedNames") [] ::
-             (names.flatMap (definedNameEvents q) ++ (.end_ (q "definedNames") :: (extEvents q ext ++ [.end_ (q "workbook")]))))))))
+             (names.flatMap (definedNameEvents q) ++
+               (.end_ (q "definedNames") :: (g.g3 ++ (extEvents q ext ++ (g.g4 ++ [.end_ (q "workbook")])))))))))))))
 
 /-! ### what the xlsx theorems assume and promise -/
 
@@ -405,15 +430,32 @@ def styleEvents (st : String × Option Bool) : List Ev :=
 def namedRangeEvents (n : String × String) : List Ev :=
   [.start "table:named-range" [("table:name", n.1), ("table:cell-range-address", n.2)], .end_ "table:named-range"]
 
-/-- the events of `content.xml` as far as the metadata goes -/
-def contentEvents (styles : List (String × Option Bool)) (tables : List OTable) (names : List (String × String)) : List Ev :=
-  .start "office:document-content" [] :: .start "office:automatic-styles" [] ::
+/-- the element names `parse_content` interprets at top level (qualified names: the reader compares them so) -/
+def odsInterpreted : List String := ["style:style", "style:table-properties", "table:table", "table:named-expressions"]
+
+/-- events `parse_content` must skip at top level: start tags of any other element (`office:scripts`,
+    `office:font-face-decls`, `style:font-face`, `number:date-style`, `table:calculation-settings`,
+    `table:content-validations`, `table:database-ranges`, …), every end tag, text, comments, PIs -/
+def InertO (evs : List Ev) : Prop :=
+  ∀ e ∈ evs, match e with
+    | .start n _ => n ∉ odsInterpreted
+    | _ => True
+
+def Gaps.okO (g : Gaps) : Prop := InertO g.g0 ∧ InertO g.g1 ∧ InertO g.g2 ∧ InertO g.g3 ∧ InertO g.g4
+
+/-- the events of `content.xml` as far as the metadata goes:
+    `<office:document-content> g0 <office:automatic-styles> g1 styles… </…> <office:body><office:spreadsheet> g2 tables… g3
+     <table:named-expressions>…</…> g4 </office:spreadsheet></office:body></office:document-content>` -/
+def contentEvents (styles : List (String × Option Bool)) (tables : List OTable) (names : List (String × String))
+    (g : Gaps := {}) : List Ev :=
+  .start "office:document-content" [] :: (g.g0 ++ (.start "office:automatic-styles" [] :: (g.g1 ++
     (styles.flatMap styleEvents ++
-      (.end_ "office:automatic-styles" :: .start "office:body" [] :: .start "office:spreadsheet" [] ::
-        (tables.flatMap tableEvents ++
+      (.end_ "office:automatic-styles" :: .start "office:body" [] :: .start "office:spreadsheet" [] :: (g.g2 ++
+        (tables.flatMap tableEvents ++ (g.g3 ++
           (.start "table:named-expressions" [] ::
             (names.flatMap namedRangeEvents ++
-              [.end_ "table:named-expressions", .end_ "office:spreadsheet", .end_ "office:body", .end_ "office:document-content"])))))
+              (.end_ "table:named-expressions" :: (g.g4 ++
+                [.end_ "office:spreadsheet", .end_ "office:body", .end_ "office:document-content"]))))))))))))
 
 /-! ### what the ods theorem promises -/
 
